@@ -380,6 +380,24 @@ def b_native(B):
     combos = [(9000, 4096, (1, 2, 3), False), (20000, 8192, (1, 2, 8), False), (12000, 4096, (1, 3, 7), True)]
     if B.tier == "thorough":
         combos = [(ns, nb, (1, 2, 3, 5, 8), kf) for ns in (9000, 20000, 33333) for nb in (4096, 8192) for kf in (False, True)]
+    # an output folder used again (not in append mode) for a run with fewer batches: quality files and output are those of a fresh folder
+    import joblib
+    d = tempfile.mkdtemp(prefix="c06_")
+    try:
+        ap, x = _mk_rec(d, 12000, rng)
+        res = {}
+        for tag, folder, nbs in (("fresh", "a", (8192,)), ("reused", "b", (4096, 8192))):
+            od = os.path.join(d, folder)
+            os.makedirs(od)
+            for nb_ in nbs:
+                with joblib.parallel_backend("threading"):
+                    V.decompress_destripe_cbin(ap, output_file=os.path.join(od, "out.bin"), nbatch=nb_, nprocesses=2, reject_channels=False, compute_rms=True)
+            res[tag] = (np.fromfile(os.path.join(od, "out.bin"), dtype=np.int16), np.load(os.path.join(od, "_iblqc_ephysTimeRmsAP.rms.npy")),
+                        np.load(os.path.join(od, "_iblqc_ephysTimeRmsAP.timestamps.npy")), np.load(os.path.join(od, "_iblqc_ephysSaturation.samples.npy")))
+        same = all(a_.shape == b_.shape and np.array_equal(a_, b_) for a_, b_ in zip(res["fresh"], res["reused"]))
+        B.case("output_folder_used_again", bool(same), detail={"rms_rows": [int(res[k][1].shape[0]) for k in ("fresh", "reused")], "timestamps": [int(res[k][2].shape[0]) for k in ("fresh", "reused")]})
+    finally:
+        shutil.rmtree(d, ignore_errors=True)
     for ns, nb, workers, kf in combos:
         bad = native_destripe(rng, ns, nb, workers, kf)
         phantom = [x for x in bad if x[0] in ("rms rows", "bytes differ across worker counts")]
